@@ -80,6 +80,7 @@ type Sim struct {
 	actors   atomic.Int64
 
 	plain bool
+	simElapsed time.Duration
 
 	// Invariant, if set, is evaluated at every quiescent point.
 	Invariant func()
@@ -577,6 +578,7 @@ func Run(t *testing.T, plan *Plan, opt Options, body func(s *Sim)) *Result {
 			}
 			body(s)
 			s.Finish()
+			s.simElapsed = s.Now()
 		})
 	}()
 	if s != nil {
@@ -585,6 +587,7 @@ func Run(t *testing.T, plan *Plan, opt Options, body func(s *Sim)) *Result {
 		res.Counters = s.counters
 		s.mu.Unlock()
 		res.Steps = s.step
+		res.SimNanos = int64(s.simElapsed)
 		res.JournalTail = s.journal
 		res.JournalHash = hex.EncodeToString(s.jhash[:8])
 	}
